@@ -465,8 +465,20 @@ def load_modules():
   mods = {}
   import anchors
   for info in sorted(pkgutil.iter_modules(anchors.__path__), key=lambda i: i.name):
-    m = importlib.import_module('anchors.' + info.name)
-    for k, v in m.MODULES.items():
+    try:
+      m = importlib.import_module('anchors.' + info.name)
+      table = dict(m.MODULES)
+    except Exception as ex:  # a broken anchors file must fail only ITS generated modules (never leave stale ones)
+      import re
+      import traceback
+      err = 'anchors file %s.py failed to load: %s' % (info.name, ''.join(traceback.format_exception_only(type(ex), ex)).strip())
+      try:
+        text = open(os.path.join(anchors.__path__[0], info.name + '.py')).read()
+      except OSError:
+        text = ''
+      table = {g: {'src': info.name + '.py', 'items': [], 'load_error': err}
+               for g in set(re.findall(r"['\"](Gen_[A-Za-z0-9_]+)['\"]\s*:", text))}
+    for k, v in table.items():
       if k in mods:
         raise RuntimeError('duplicate generated module ' + k)
       mods[k] = v
@@ -496,9 +508,11 @@ def run(repo, outdir, only=None):
       continue
     out = os.path.join(outdir, mod + '.v')
     try:
+      if spec.get('load_error'):
+        raise Unsupported(spec['load_error'])
       text = translate_module(repo, mod, spec)
       status[mod] = None
-    except (Unsupported, SyntaxError, OSError) as ex:
+    except Exception as ex:  # fail closed on ANY emitter error, per module
       text = f'(* translation of {spec["src"]} FAILED: {ex!s} *)\nTRANSLATION_FAILED.\n'
       status[mod] = f'{type(ex).__name__}: {ex}'
     old = None
